@@ -6,7 +6,8 @@
 //!     ext  extended fields of the inputs: `_` (none) or entries joined by `,`, entry k for input k:
 //!          `<sat>.<lock>` with sat = decimal u64 or `n` (None), lock = byte descriptor of the locking script
 //!          (may be empty = Some(empty script)) or `n` (None)
-//!     -> Interpreter::from_transaction(&tx, idx) + run():  `OK:<stack items>;<codeseparator_offset>` or ERR
+//!     -> Interpreter::from_transaction(&tx, idx) + run():  `OK:<stack items>;<codeseparator_offset>;<T|F>` or ERR
+//!        (T: a true element is on top of the final stack, i.e. the input counts as spent)
 //!
 //! spend.build <kind> <tx> <idx> <value> <keys> <signers> <seps> <variant>
 //!     kind     p2pk | p2pkh | ms | raw | rawd (raw with an OP_0 dummy element in front of the signatures)
@@ -42,6 +43,23 @@ fn show_items(v: &[Vec<u8>]) -> String {
         s.push(',');
     }
     s
+}
+
+/// T when the run leaves a true element on top of the stack (CastToBool: some non-zero byte, other than a lone sign bit in
+/// the last byte), F otherwise (empty stack included): "the input is spent"
+fn top_verdict(stack: &[Vec<u8>]) -> char {
+    match stack.last() {
+        None => 'F',
+        Some(v) => {
+            let n = v.len();
+            let truthy = v.iter().enumerate().any(|(i, b)| *b != 0 && !(i + 1 == n && *b == 0x80));
+            if truthy {
+                'T'
+            } else {
+                'F'
+            }
+        }
+    }
 }
 
 /// apply the `ext` argument to the transaction; None = malformed argument, Some(Err) = the library refused
@@ -109,7 +127,7 @@ pub fn run(op: &str, args: &[String]) -> Option<String> {
             match it.run() {
                 Ok(()) => {
                     let st = it.state();
-                    format!("OK:{};{}", show_items(st.stack()), st.codeseparator_offset)
+                    format!("OK:{};{};{}", show_items(st.stack()), st.codeseparator_offset, top_verdict(st.stack()))
                 }
                 Err(_) => "ERR".into(),
             }
@@ -145,7 +163,7 @@ pub fn run(op: &str, args: &[String]) -> Option<String> {
                 }
             }
             let st = it.state();
-            format!("OK:{};{}", show_items(st.stack()), st.codeseparator_offset)
+            format!("OK:{};{};{}", show_items(st.stack()), st.codeseparator_offset, top_verdict(st.stack()))
         }
         "interp.seq" => {
             // interp.seq <tx> <idx> <ext> <key> <steps>: ONE Transaction object (and one persisted Interpreter) driven through a
